@@ -175,7 +175,16 @@ CONTRACTS = {
     ensures=[('true-iff-no-blocking-pair', 'result == (not exists(i, 0, len(self.pairs), exists(c, 0, len(self.pairs[i]), blk(i, c))))')]),
 
  # text formatting helpers: modelled as pure functions of their arguments (their exact layout is covered by the bounded runs only)
- M + '_get_profile_string': dict(pure_text=True),
+ # the profile line: '<', one number per rank in rank order, '>' (blank-separated).  Callers see a pure text function of the profile (pure_text);
+ # the body is verified here, so "the printed profile is _get_profile_string(profile)" composes with this postcondition by function identity.
+ M + '_get_profile_string': dict(pure_text=True,
+    params={'rank_allocations': ('list', 'int')}, locals={'profile_string': 'linetoks'},
+    loops={0: dict(invariant=['len(profile_string) == 1 + _k', 'kind(profile_string[0]) == 3',
+                              'forall(j, 0, _k, kind(profile_string[j + 1]) == 0 and value(profile_string[j + 1]) == rank_allocations[j])'])},
+    returns=('joinstr', ' ', 'tok'),
+    ensures=[('opening-bracket-one-entry-per-rank-closing-bracket', 'len(joined(result)) == len(rank_allocations) + 2 and kind(joined(result)[0]) == 3'
+              ' and kind(joined(result)[len(rank_allocations) + 1]) == 4'),
+             ('entry-j-is-the-number-of-rank-j+1', 'forall(j, 0, len(rank_allocations), kind(joined(result)[j + 1]) == 0 and value(joined(result)[j + 1]) == rank_allocations[j])')]),
  # C11 long format: one line per student, in student order: the student's matched pair (student, project, lecturer numbers) or "no assignment"
  M + '_get_detailed_student_info': dict(
     params=PA, requires=PRE, locals={'st_lines': ('list', 'strline')}, symbolic_repeat=True,
